@@ -42,6 +42,8 @@ type c20Extractor struct {
 	alias map[string]string
 	// retirement functions: also report select cases, defers and goroutine spawns
 	commTokens bool
+	// pinned call-site arguments (time-outs), collected while walking
+	pins []string
 	// statistics
 	nIf, nStmts int
 }
@@ -251,6 +253,8 @@ func (x *c20Extractor) callToken(c *ast.CallExpr) string {
 	case "reloadManager.finishReloadFailure":
 		return "finishfail"
 	case "waitReloadReadyOrSignal":
+		// the timeout argument is pinned separately (`pins handler …`)
+		x.pins = append(x.pins, "wait:"+arg(3))
 		return "wait"
 	case "reloadManager.queueReloadRequest":
 		if cl, ok := c.Args[len(c.Args)-1].(*ast.CompositeLit); ok {
@@ -268,8 +272,23 @@ func (x *c20Extractor) callToken(c *ast.CallExpr) string {
 		return "?queueReloadRequest"
 	case "rollbackStagedReloadHandoff":
 		return "" // closes the staged generation; no reload flag involved
-	// retirement functions (cmd/run.go waitForControlPlaneDrain / retireControlPlaneConnections,
-	// cmd/reload_manager.go startControlPlaneRetirement)
+	}
+	if x.commTokens {
+		// retirement functions only (cmd/run.go waitForControlPlaneDrain /
+		// retireControlPlaneConnections, cmd/reload_manager.go startControlPlaneRetirement); in the
+		// worker / handler regions these calls are harmless and yield nothing
+		if t := x.retireToken(fun, arg); t != "" {
+			return t
+		}
+	}
+	if c20PureReads[fun] {
+		return ""
+	}
+	return x.fallbackToken(fun)
+}
+
+func (x *c20Extractor) retireToken(fun string, arg func(int) string) string {
+	switch fun {
 	case "time.NewTimer":
 		return "timer:" + arg(0)
 	case "time.NewTicker":
@@ -297,9 +316,10 @@ func (x *c20Extractor) callToken(c *ast.CallExpr) string {
 	case "close":
 		return "close:" + arg(0)
 	}
-	if c20PureReads[fun] {
-		return ""
-	}
+	return ""
+}
+
+func (x *c20Extractor) fallbackToken(fun string) string {
 	if strings.HasSuffix(fun, ".Fatalln") || strings.HasSuffix(fun, ".Fatalf") || strings.HasSuffix(fun, ".Fatal") || fun == "os.Exit" {
 		return "fatal"
 	}
@@ -323,8 +343,16 @@ func (x *c20Extractor) exprTokens(n ast.Node) []string {
 	ast.Inspect(n, func(m ast.Node) bool {
 		switch v := m.(type) {
 		case *ast.FuncLit:
+			// goroutines / callbacks run elsewhere, but what they may do to the reload state is part
+			// of the path: the set of effect tokens found anywhere inside (nested literals included)
+			if t := x.litToken(v); t != "" {
+				out = append(out, t)
+			}
 			return false
 		case *ast.CallExpr:
+			if f := x.src(v.Fun); f == "context.WithTimeout" && !x.commTokens && len(v.Args) == 2 {
+				x.pins = append(x.pins, "ctx:"+x.src(v.Args[1]))
+			}
 			// arguments are evaluated before the call itself
 			for _, a := range v.Args {
 				out = append(out, x.exprTokens(a)...)
@@ -347,6 +375,37 @@ func (x *c20Extractor) exprTokens(n ast.Node) []string {
 		return true
 	})
 	return out
+}
+
+// litToken: `lit{a,b}` = the distinct effect tokens inside a function literal (sorted), "" if none.
+func (x *c20Extractor) litToken(fl *ast.FuncLit) string {
+	set := map[string]bool{}
+	savedPins := x.pins
+	ast.Inspect(fl.Body, func(m ast.Node) bool {
+		if c, ok := m.(*ast.CallExpr); ok {
+			if t := x.callToken(c); t != "" {
+				set[t] = true
+			}
+		}
+		if a, ok := m.(*ast.AssignStmt); ok {
+			for _, l := range a.Lhs {
+				if s := x.src(l); strings.HasPrefix(s, "reloadManager.") {
+					set["?assign:"+s] = true
+				}
+			}
+		}
+		return true
+	})
+	x.pins = savedPins
+	if len(set) == 0 {
+		return ""
+	}
+	var ts []string
+	for t := range set {
+		ts = append(ts, t)
+	}
+	sort.Strings(ts)
+	return "lit{" + strings.Join(ts, ",") + "}"
 }
 
 func c20Dedupe(ps []c20Path) []c20Path {
@@ -379,6 +438,17 @@ func c20Cat(a []c20Path, b []c20Path) []c20Path {
 
 func c20Prefix(toks []string, ps []c20Path) []c20Path {
 	return c20Cat([]c20Path{{toks: toks}}, ps)
+}
+
+// opaqueLoop: a loop whose body has no effect on the reload state and no jump out is invisible;
+// anything else is reported.
+func (x *c20Extractor) opaqueLoop(body *ast.BlockStmt) []c20Path {
+	for _, p := range x.block(body.List) {
+		if len(p.toks) > 0 || (p.term != "" && p.term != "next" && p.term != "break") {
+			return []c20Path{{toks: []string{"?loop"}}}
+		}
+	}
+	return []c20Path{{}}
 }
 
 func (x *c20Extractor) block(stmts []ast.Stmt) []c20Path {
@@ -470,10 +540,9 @@ func (x *c20Extractor) stmt(s ast.Stmt) []c20Path {
 			}
 			return ps
 		}
-		return []c20Path{{toks: []string{"?loop"}}}
+		return x.opaqueLoop(v.Body)
 	case *ast.RangeStmt:
-		// no other loop is expected inside the extracted regions; make it visible
-		return []c20Path{{toks: []string{"?loop"}}}
+		return x.opaqueLoop(v.Body)
 	case *ast.BranchStmt:
 		switch v.Tok {
 		case token.CONTINUE:
@@ -500,11 +569,18 @@ func (x *c20Extractor) stmt(s ast.Stmt) []c20Path {
 		}
 		if x.commTokens {
 			toks = append(toks, "spawn")
+		} else if fl, ok := v.Call.Fun.(*ast.FuncLit); ok {
+			if t := x.litToken(fl); t != "" {
+				toks = append(toks, t)
+			}
 		}
 		return []c20Path{{toks: toks}}
 	case *ast.DeferStmt:
 		if x.commTokens {
 			return []c20Path{{toks: []string{"defer:" + x.src(v.Call)}}}
+		}
+		if len(x.exprTokens(v.Call)) == 0 {
+			return []c20Path{{}} // a deferred call that touches nothing of the reload state
 		}
 		return []c20Path{{toks: []string{"?defer"}}}
 	default:
@@ -531,6 +607,10 @@ type c20Regions struct {
 	// retirement: waitForControlPlaneDrain, retireControlPlaneConnections,
 	// startControlPlaneRetirement and the body of its goroutine
 	drain, retire, startret, retgo []c20Path
+	// facts: constructor lines of Run, pinned call-site arguments, the CLI closures
+	facts []c20Path
+	// progress codes with which `dae reload` goes on to signal (extracted from cmd/reload.go)
+	cliAccept map[string]bool
 	stats                    map[string]int
 }
 
@@ -586,9 +666,64 @@ func c20ExtractRegions(repo string) (*c20Regions, error) {
 		sort.Slice(ps, func(i, j int) bool { return ps[i].key() < ps[j].key() })
 		return ps
 	}
+	fact := func(text string) { r.facts = append(r.facts, c20Path{toks: strings.Fields(text), term: "fact"}) }
+	pinLine := func(region string) {
+		cnt := map[string]int{}
+		for _, p := range x.pins {
+			cnt[p]++
+		}
+		var ks []string
+		for k, n := range cnt {
+			ks = append(ks, fmt.Sprintf("%s*%d", k, n))
+		}
+		sort.Strings(ks)
+		fact("pins " + region + " " + strings.Join(ks, " "))
+		x.pins = nil
+	}
 	r.worker = norm(x.block(workerBody), "next")
+	pinLine("worker")
 	r.handler = norm(x.block(handlerBody), "next")
+	pinLine("handler")
 	r.signals = norm(x.block(signalBody), "next")
+	x.pins = nil
+	// ---- constructor lines of Run (outside the three regions)
+	startupSeen := false
+	ast.Inspect(run.Body, func(n ast.Node) bool {
+		switch v := n.(type) {
+		case *ast.AssignStmt:
+			if len(v.Lhs) == 1 && len(v.Rhs) == 1 {
+				if call, ok := v.Rhs[0].(*ast.CallExpr); ok && x.rawSrc(call.Fun) == "make" && len(call.Args) >= 1 {
+					if _, isChan := call.Args[0].(*ast.ChanType); isChan {
+						name := x.src(v.Lhs[0])
+						if name == "reloadReqs" || name == "runStateChanges" || name == "sigs" {
+							capS := "0"
+							if len(call.Args) == 2 {
+								capS = x.rawSrc(call.Args[1])
+							}
+							fact("ctor " + name + " " + strings.ReplaceAll(x.rawSrc(call.Args[0]), " ", "") + " cap=" + capS)
+						}
+					}
+				}
+			}
+		case *ast.CallExpr:
+			if x.rawSrc(v.Fun) == "signal.Notify" && len(v.Args) >= 1 {
+				var sg []string
+				for _, a := range v.Args[1:] {
+					sg = append(sg, strings.TrimPrefix(x.rawSrc(a), "syscall."))
+				}
+				sort.Strings(sg)
+				fact("ctor notify " + x.src(v.Args[0]) + " " + strings.Join(sg, ","))
+			}
+		case *ast.GoStmt:
+			// the first goroutine of Run: listen + serve + the start-up progress write
+			if fl, ok := v.Call.Fun.(*ast.FuncLit); ok && !startupSeen && fl.Pos() < workerBody[0].Pos() {
+				startupSeen = true
+				fact("ctor startup " + x.litToken(fl))
+			}
+		}
+		return true
+	})
+	x.pins = nil
 	// ---- retirement functions
 	y := &c20Extractor{fset: fset, alias: map[string]string{}, commTokens: true}
 	funcBody := func(file *ast.File, name string) *ast.BlockStmt {
@@ -623,9 +758,164 @@ func c20ExtractRegions(repo string) (*c20Regions, error) {
 		return nil, fmt.Errorf("retirement goroutine not found")
 	}
 	r.retgo = norm(y.block(goBody.List), "end")
+	if err := c20ExtractCLI(repo, r, x); err != nil {
+		return nil, err
+	}
 	r.stats["stmts_walked"] = x.nStmts + y.nStmts
 	r.stats["ifs_walked"] = x.nIf
 	return r, nil
+}
+
+// c20ExtractCLI: the `dae reload` / `dae suspend` cobra closures (cmd/reload.go, cmd/suspend.go).
+func c20ExtractCLI(repo string, r *c20Regions, x *c20Extractor) error {
+	fset := x.fset
+	fr, err := parser.ParseFile(fset, filepath.Join(repo, "cmd", "reload.go"), nil, 0)
+	if err != nil {
+		return err
+	}
+	fs, err := parser.ParseFile(fset, filepath.Join(repo, "cmd", "suspend.go"), nil, 0)
+	if err != nil {
+		return err
+	}
+	fact := func(text string) { r.facts = append(r.facts, c20Path{toks: strings.Fields(text), term: "fact"}) }
+	runLit := func(f *ast.File, varName string) *ast.FuncLit {
+		var out *ast.FuncLit
+		ast.Inspect(f, func(n ast.Node) bool {
+			vs, ok := n.(*ast.ValueSpec)
+			if !ok || len(vs.Names) != 1 || vs.Names[0].Name != varName {
+				return true
+			}
+			ast.Inspect(vs, func(m ast.Node) bool {
+				if kv, ok := m.(*ast.KeyValueExpr); ok && x.rawSrc(kv.Key) == "Run" {
+					if fl, ok := kv.Value.(*ast.FuncLit); ok {
+						out = fl
+					}
+				}
+				return true
+			})
+			return false
+		})
+		return out
+	}
+	hasCall := func(n ast.Node, fun string, argSub string) bool {
+		found := false
+		ast.Inspect(n, func(m ast.Node) bool {
+			if c, ok := m.(*ast.CallExpr); ok && x.rawSrc(c.Fun) == fun {
+				if argSub == "" || strings.Contains(x.rawSrc(c), argSub) {
+					found = true
+				}
+			}
+			return true
+		})
+		return found
+	}
+	// leaves of an &&-conjunction / ||-disjunction
+	var leaves func(e ast.Expr, op token.Token) []ast.Expr
+	leaves = func(e ast.Expr, op token.Token) []ast.Expr {
+		if p, ok := e.(*ast.ParenExpr); ok {
+			return leaves(p.X, op)
+		}
+		if b, ok := e.(*ast.BinaryExpr); ok && b.Op == op {
+			return append(leaves(b.X, op), leaves(b.Y, op)...)
+		}
+		return []ast.Expr{e}
+	}
+	codeCmp := func(e ast.Expr, op token.Token) (string, bool) {
+		b, ok := e.(*ast.BinaryExpr)
+		if !ok || b.Op != op {
+			return "", false
+		}
+		l, rr := x.rawSrc(b.X), x.rawSrc(b.Y)
+		if strings.HasPrefix(l, "consts.") {
+			l, rr = rr, l
+		}
+		if l == "code" && strings.HasPrefix(rr, "consts.Reload") {
+			return strings.TrimPrefix(rr, "consts."), true
+		}
+		return "", false
+	}
+	rl := runLit(fr, "reloadCmd")
+	if rl == nil {
+		return fmt.Errorf("reloadCmd.Run not found")
+	}
+	r.cliAccept = map[string]bool{}
+	posAbort, posCheck, posSend := -1, -1, -1
+	for i, st := range rl.Body.List {
+		if hasCall(st, "os.Create", "AbortFile") && posAbort < 0 {
+			posAbort = i
+		}
+		if hasCall(st, "writeReloadSendAndSignal", "") && posSend < 0 {
+			posSend = i
+		}
+		ifs, ok := st.(*ast.IfStmt)
+		if !ok || posCheck >= 0 || posSend >= 0 {
+			continue
+		}
+		var acc []string
+		readable, unknown, isCheck := "0", "", false
+		for _, lf := range leaves(ifs.Cond, token.LAND) {
+			if c, ok := codeCmp(lf, token.NEQ); ok {
+				acc = append(acc, c)
+				isCheck = true
+			} else if s := x.rawSrc(lf); s == "err == nil" || s == "nil == err" {
+				readable = "1"
+			} else {
+				unknown += "?" + strings.ReplaceAll(s, " ", "")
+			}
+		}
+		if !isCheck {
+			continue
+		}
+		posCheck = i
+		sort.Strings(acc)
+		for _, a := range acc {
+			r.cliAccept[a] = true
+		}
+		refuses := "falls-through"
+		if n := len(ifs.Body.List); n > 0 {
+			if _, ok := ifs.Body.List[n-1].(*ast.ReturnStmt); ok && !hasCall(ifs.Body, "writeReloadSendAndSignal", "") && !hasCall(ifs.Body, "syscall.Kill", "") {
+				refuses = "returns-without-signal"
+			}
+		}
+		fact("cli reload precheck signals-only-on=" + strings.Join(acc, ",") + " needs-readable=" + readable + unknown + " else=" + refuses)
+	}
+	order := "none"
+	switch {
+	case posAbort >= 0 && posCheck >= 0 && posAbort < posCheck:
+		order = "before-precheck"
+	case posAbort >= 0 && posCheck >= 0 && posAbort > posCheck && (posSend < 0 || posAbort < posSend):
+		order = "after-precheck"
+	case posAbort >= 0:
+		order = "elsewhere"
+	}
+	fact("cli reload abortmarker=" + order)
+	// the codes on which the client stops waiting
+	for _, d := range fr.Decls {
+		if fd, ok := d.(*ast.FuncDecl); ok && fd.Name.Name == "waitReloadCompletion" {
+			ast.Inspect(fd.Body, func(n ast.Node) bool {
+				if ifs, ok := n.(*ast.IfStmt); ok {
+					var term []string
+					for _, lf := range leaves(ifs.Cond, token.LOR) {
+						if c, ok := codeCmp(lf, token.EQL); ok {
+							term = append(term, c)
+						}
+					}
+					if len(term) > 0 {
+						sort.Strings(term)
+						fact("cli reload stops-waiting-on=" + strings.Join(term, ","))
+					}
+				}
+				return true
+			})
+		}
+	}
+	sl := runLit(fs, "suspendCmd")
+	if sl == nil {
+		return fmt.Errorf("suspendCmd.Run not found")
+	}
+	reads := hasCall(sl, "readSignalProgressFile", "") || hasCall(sl, "waitReloadCompletion", "")
+	fact("cli suspend reads-progress=" + c20B(reads) + " abortmarker=" + c20B(hasCall(sl, "os.Create", "AbortFile")))
+	return nil
 }
 
 func c20RepoDir() string {
